@@ -348,7 +348,10 @@ func runC11(c *mon.Ctx) {
 			if d := mon.Diff(got[j], want[j], ignoreOneByte); d != "" {
 				c.Violate("C11/stream/field-differs:"+fieldOf(d), "streams", i, fmt.Sprintf("packet %d: %s", j, d), nil)
 			}
-			m.WritePacket(got[j])
+			if pn, v, st := mon.Guarded(func() { m.WritePacket(got[j]) }); pn {
+				c.Violate("C11/stream/reemit-panic", "streams", i, fmt.Sprintf("WritePacket of packet %d returned by NextPacket: %v\n%s", j, v, st), map[string]any{"stream": mon.Hex(in, 2000)})
+				break
+			}
 		}
 		if !bytes.Equal(out.Bytes(), in) {
 			c.Violate("C11/stream/reemit-differs", "streams", i, fmt.Sprintf("re-emitted stream differs at byte %d", firstDiff(out.Bytes(), in)), nil)
